@@ -137,6 +137,7 @@ StratWordsB == StratWords \cup {<<98>>}
 OptsBasic == {[ci |-> c, ls |-> l, be |-> TRUE, ea |-> FALSE] : c \in BOOLEAN, l \in BOOLEAN}
 OptsCS == {[ci |-> FALSE, ls |-> l, be |-> TRUE, ea |-> FALSE] : l \in BOOLEAN}
 OptsLS == {[ci |-> FALSE, ls |-> TRUE, be |-> TRUE, ea |-> FALSE]}
+OptsNoBE == {[ci |-> c, ls |-> l, be |-> TRUE, ea |-> e] : c \in BOOLEAN, l \in BOOLEAN, e \in BOOLEAN}
 OptsAll == [ci : BOOLEAN, ls : BOOLEAN, be : BOOLEAN, ea : BOOLEAN]
 
 PathAlphaDef == <<97, 98, 46, 47, 45, 65>>                       \* a b . / - A
